@@ -1121,6 +1121,19 @@ func (c *srcCmp) goBindings() {
 		if rt.Elem().Name() != goName {
 			c.bad("go:type-name", path, "Go type name differs", goName, rt.Elem().Name())
 		}
+		// A value that goes through Reset() before anything else looked at it
+		// (the decode path of a server does this) must still describe itself
+		// as this message.
+		if z, ok := reflect.New(rt.Elem()).Interface().(interface {
+			Reset()
+			ProtoReflect() protoreflect.Message
+		}); ok {
+			c.el("go-reset", path)
+			z.Reset()
+			if got := z.ProtoReflect().Descriptor().FullName(); got != md.FullName() {
+				c.bad("go:reset-descriptor", path, "a fresh value describes itself as another message after Reset()", string(md.FullName()), string(got))
+			}
+		}
 		// The legacy entry point: Descriptor() returns the gzipped file
 		// descriptor and the index path of the message in it; following the
 		// path must lead to this very message.
